@@ -227,6 +227,13 @@ def run(ctx):
     if named_impl != named_model:
         ctx.fail("diff", "code-table-differs", {"impl": named_impl, "model": named_model},
                  "compiled From<i32> and the translated kind_of_code differ")
+    # (1b) error objects built through the public constructors round-trip (incl. data that serialises to `null`)
+    datas = [b"", b"null", b"1", b'"x"', b"[null]", b'{"a":null}', b"false", b"0", b'""', b"[]"]
+    r = vlib.run_lines([impl], ["mkerr %s" % hx(d) for d in datas])
+    for d, a in zip(datas, r):
+        ctx.evaluations += 1
+        if "eq=false" in a or "same_bytes=false" in a or a.startswith(("PANIC", "CRASH", "?")):
+            ctx.fail("oracle", "errobj-constructed-roundtrip", {"kind": "mkerr", "text_hex": d.hex(), "data": d.decode()}, a)
     # (2) text cases
     cases = gen_cases(ctx)
     lines = ["%s %s" % (k, hx(t)) for k, t, _ in cases]
